@@ -42,6 +42,7 @@ def C01(tier):
     # legacy queues whose target queue is changed (dispatch_set_target_queue) while they are in use
     jobs += spread(hq, "retarget", 16 * m, 2) + [hq("retarget", 6 * m, first=100, ncpu=4), hq("retarget", 5 * m, first=200, flavor="asan", scale=40, timeout=600)]
     jobs += [hj("h_suspend", 16 * min(m, 2), first=0, mode="pbar")]
+    jobs += [hq("mixed", 6 * m, first=3000, extra=["--sigstorm=2000"]), hq("pingpong", 6 * m, first=3100, extra=["--sigstorm=2000"]), hq("hier", 6 * m, first=3200, extra=["--sigstorm=2000"])]
     if tier == "thorough":
         jobs += [hq("default", 10 * m, first=2000, flavor="dbg", scale=60, timeout=900)]
         for t in jobs:
@@ -186,6 +187,7 @@ def C05(tier):
              hq("pingpong", 5 * m, first=1000, flavor="asan", scale=40, timeout=600), hq("wl", 5 * m, first=1020, flavor="asan", scale=50, timeout=600)]
     jobs += [hw(32 * min(m, 2)), hw(32 * min(m, 2), flavor="asan")]
     jobs += [hq("retarget", 8 * m, first=500), hq("retarget", 4 * m, first=550, flavor="tsan", scale=25, timeout=900, perturb="uniform")]
+    jobs += [Job("hooks", "h_handoff", ["--trials=%d" % (10 * m), "--first=600", "--sigstorm=2000"], timeout=600, tag="h_handoff:hooks:sigstorm"), hq("pingpong", 6 * m, first=3100, extra=["--sigstorm=2000"])]
     if tier == "thorough":
         for t in jobs:
             t.timeout = 1800
@@ -220,6 +222,7 @@ def C07(tier):
     jobs += [hj("h_group", 6 * m, first=2000, ncpu=1, scale=40, mode="tokens"), hj("h_group", 8 * m, first=2100, ncpu=2, scale=60, mode="mixed"),
              hj("h_group", 8 * m, first=2200, ncpu=4, mode="tokens")]
     jobs += [hj("h_group", 4 * m, first=3000, flavor="asan", scale=40, timeout=600)]
+    jobs += [hj("h_group", 8 * m, first=5000, mode="tokens", extra=["--sigstorm=2000"]), hj("h_group", 8 * m, first=5100, mode="mixed", extra=["--sigstorm=2000"])]
     # quiescent rounds: a wake-up lost at a zero transition leaves every thread asleep (stuck witness)
     jobs += [hj("h_group", 3 * m, first=4000, mode="rounds"), hj("h_group", 3 * m, first=4100, mode="rounds"),
              hj("h_group", 2 * m, first=4200, mode="rounds", ncpu=3, scale=50), hj("h_group", 2 * m, first=4300, mode="rounds", ncpu=2, scale=30)]
@@ -254,11 +257,14 @@ def C08(tier):
     jobs += [hj("h_sema", 6 * m, first=2000, ncpu=1, scale=40), hj("h_sema", 8 * m, first=2100, ncpu=2, scale=60), hj("h_sema", 8 * m, first=2200, ncpu=4)]
     jobs += [hj("h_sema", 4 * m, first=3000, flavor="asan", scale=40, timeout=600)]
     jobs += [hj("h_sema", 6 * m, first=4000, mode="clockgap"), hj("h_sema", 4 * m, first=4100, mode="clockgap", ncpu=2)]
+    # EINTR: signals delivered to random threads (waiters included): an interrupted wait is neither a time-out nor a wake-up
+    jobs += [hj("h_sema", 10 * m, first=5000, extra=["--sigstorm=2000"]), hj("h_sema", 6 * m, first=5100, ncpu=2, scale=60, extra=["--sigstorm=2000"])]
     if tier == "thorough":
         for t in jobs:
             t.timeout = 1800
     floors = {
         "clockgap_delays_injected": 200,
+        "signals_delivered": 1000,
         "waits": 300000 * (1 if tier == "quick" else 8),
         "timeouts": 20000,
         "success_after_deadline": 50,   # timed waits satisfied after their deadline: the timeout raced a signal
@@ -279,6 +285,7 @@ def C09(tier):
         jobs.append(hj("h_once", 10 * m, first=i * 10 * m))
     jobs += [hj("h_once", 6 * m, first=2000, ncpu=1, scale=30), hj("h_once", 8 * m, first=2100, ncpu=2, scale=60), hj("h_once", 8 * m, first=2200, ncpu=4)]
     jobs += [hj("h_once", 6 * m, first=3000, flavor="tsan", scale=40, timeout=900)]
+    jobs += [hj("h_once", 8 * m, first=5000, extra=["--sigstorm=2000"])]
     if tier == "thorough":
         for t in jobs:
             t.timeout = 1800
@@ -366,6 +373,7 @@ def C19(tier):
     jobs += [hj("h_block", 5 * m, first=2000, ncpu=1, scale=30), hj("h_block", 6 * m, first=2100, ncpu=2, scale=50), hj("h_block", 6 * m, first=2200, ncpu=4)]
     jobs += [hj("h_block", 6 * m, first=2500, mode="window")]
     jobs += [hj("h_block", 4 * m, first=3000, flavor="asan", scale=30, timeout=600), hj("h_block", 3 * m, first=3100, flavor="asan", mode="window", timeout=600)]
+    jobs += [hj("h_block", 6 * m, first=5000, extra=["--sigstorm=2000"])]
     if tier == "thorough":
         for t in jobs:
             t.timeout = 1800
@@ -396,6 +404,7 @@ def C11(tier):
         jobs.append(hj("h_timer", 5 * m, first=i * 5 * m))
     jobs += [hj("h_timer", 3 * m, first=2000, ncpu=1, scale=50), hj("h_timer", 4 * m, first=2100, ncpu=2, scale=60), hj("h_timer", 4 * m, first=2200, ncpu=4)]
     jobs += [hj("h_timer", 3 * m, first=3000, flavor="asan", scale=50, timeout=600), hj("h_timer", 3 * m, first=3100, flavor="asan", scale=50, timeout=600)]
+    jobs += [hj("h_timer", 4 * m, first=5000, extra=["--sigstorm=2000"])]
     if tier == "thorough":
         jobs += [hj("h_timer", 20 * m, first=9000, flavor="dbg", timeout=1800)]
         for t in jobs:
